@@ -2,6 +2,7 @@ import EdpVerif.Lemmas.ElixirRange
 import EdpVerif.Lemmas.ElixirKeys
 import EdpVerif.Lemmas.ElixirLists
 import EdpVerif.Lemmas.ElixirUtf8
+import EdpVerif.Lemmas.SerdeEx
 /-
 C20 — Elixir wrappers and proplist/map helpers convert back to what went in.
 Property theorems only; the model is Impl/Elixir.lean (the code with the repairs of notes/C20-fixes/ applied), the
@@ -532,5 +533,51 @@ theorem C20_builders_agree (ps : List (Bytes × Term)) :
   · simp only [kwBuild, akmBuild, proplistToMap, mkMap, Option.some.injEq, Term.map.injEq]
     rw [List.foldl_map]
     rfl
+
+/-! ## derived struct mappings (`#[derive(ElixirStruct)]`, erltf_serde_derive)
+
+The generated `Serialize` / `Deserialize` are modelled in Impl/Serde.lean (`ser (.exStruct …)`, `de (.exStruct …)`,
+`deExFields`; the struct key and the module prefix are regenerated from the macro's source, Generated/Misc.lean) and tied to
+the real derive output by the c15 correspondence run (two derived types, perturbed maps).  Field types range over the whole
+universe of C15 (every integer width, strings, options, containers, nested derived structs …). -/
+
+/-- a derived struct converts to a term and back to an equal value, also after that term has been through the wire encoding
+(`Serde.wireT`: integers beyond 32 bits as big integers, …) — for every module name, every list of fields of every type of
+the universe, every value.  The guard is the one of C15 (distinct field names none of which is `__struct__`, field types
+the format can carry, maps inside listed in key order). -/
+theorem C20_derived_struct_roundtrip (md : Bytes) (fts : List (Bytes × Serde.Ty)) (v : Serde.Val)
+    (ht : Serde.hasTy v (.exStruct md fts) = true) (hd : Spec.Serde.distinguishableW v (.exStruct md fts) = true) :
+    Serde.de (.exStruct md fts) (Serde.ser v) = .ok v ∧ Serde.de (.exStruct md fts) (Serde.wireT (Serde.ser v)) = .ok v := by
+  simp only [Spec.Serde.distinguishableW, Spec.Serde.distinguishable, Spec.Serde.Val.plainW, Spec.Serde.Val.plain,
+    Bool.and_eq_true] at hd
+  exact ⟨Serde.de_ser _ v ht hd.1.1 hd.1.2, Serde.deW _ v ht hd.1.1 hd.1.2 hd.2⟩
+
+example : Serde.hasTy (.exStruct [85] [([97], .int .i64 1099511627776), ([98], .some (.string [104, 105]))])
+      (.exStruct [85] [([97], .int .i64), ([98], .option .string)]) = true ∧
+    Spec.Serde.distinguishableW (.exStruct [85] [([97], .int .i64 1099511627776), ([98], .some (.string [104, 105]))])
+      (.exStruct [85] [([97], .int .i64), ([98], .option .string)]) = true := by decide
+
+/-- a map that names ANOTHER module under `__struct__` (whichever way the key and the name are written: atom, binary or
+string) is rejected, whatever else it contains -/
+theorem C20_derived_struct_rejects_foreign_module (md : Bytes) (fts : List (Bytes × Serde.Ty)) (m : List (Term × Term))
+    (kv : Term × Term) (hm : kv ∈ m) (hk : Serde.keyIs Serde.sStructKey kv = true)
+    (hv : ∀ s, Serde.deStr kv.2 = .ok s → s ≠ Serde.sElixirDot ++ md) :
+    Serde.de (.exStruct md fts) (.map m) = .error .err :=
+  SerdeEx.foreign_module md fts m kv hm hk hv
+
+example : Serde.de (.exStruct [85] []) (.map [(.atom Serde.sStructKey, .atom (Serde.sElixirDot ++ [86]))]) = .error .err := by
+  apply C20_derived_struct_rejects_foreign_module [85] [] _ (.atom Serde.sStructKey, .atom (Serde.sElixirDot ++ [86])) (by simp)
+    (by decide)
+  intro s hs; simp [Serde.deStr] at hs; subst hs; decide
+
+/-- a map that lacks one of the struct's fields is rejected — no value is made up for it, not even `None` for an `Option` -/
+theorem C20_derived_struct_rejects_missing_field (md : Bytes) (fts : List (Bytes × Serde.Ty)) (m : List (Term × Term))
+    (n : Bytes) (ty : Serde.Ty) (h : (n, ty) ∈ fts) (hf : m.filter (Serde.keyIs n) = []) :
+    Serde.de (.exStruct md fts) (.map m) = .error .err :=
+  SerdeEx.missing_field_de md fts m n ty h hf
+
+example : Serde.de (.exStruct [85] [([97], .option .bool)]) (.map [(.atom Serde.sStructKey, .atom (Serde.sElixirDot ++ [85]))]) =
+    .error .err :=
+  C20_derived_struct_rejects_missing_field [85] _ _ [97] (.option .bool) (by simp) (by decide)
 
 end Edp.Props.C20
